@@ -534,6 +534,7 @@ STRUCT_PROPS = {"metadata", "data", "link", "positions", "extents", "values", "d
                 "offset", "sampling_interval", "uncertainty", "dependency", "dependency_value", "value_origin",
                 "reference", "repository", "definition", "type", "label", "unit"}
 TEXTS = [None, "", "x", "é ü 名前", "mV", "a/b", " lead", "0f" * 16]
+NUMERIC = {"expansion_origin", "offset", "sampling_interval", "uncertainty"}
 VERBATIM = {"definition", "label", "repository", "reference", "dependency", "dependency_value", "value_origin"}
 
 
@@ -843,16 +844,29 @@ class Rich:
         if not writable:
             return
         name = self.rng.choice(writable)
-        val = self.values_for(name, e)
+        if name in NUMERIC:
+            # a short burst on one attribute: integer-valued, fractional and None values follow each other directly
+            # (a store that keeps the representation of the first write would truncate the second)
+            for val in self.rng.sample([3, 1.5, -2.25, 0.0, None, 7, 0.25, 1], 3):
+                self.set_one(p, e, name, val)
+            return
+        self.set_one(p, e, name, self.values_for(name, e))
+
+    def set_one(self, p, e, name, val):
         ok, _ = self.attempt(["set", p, name, canon_value(val)], lambda: setattr(e, name, val))
-        if ok and name in VERBATIM and (val is None or isinstance(val, str)):
+        plain = (name in VERBATIM and (val is None or isinstance(val, str))) or (
+            name in NUMERIC and (val is None or (isinstance(val, (int, float)) and not isinstance(val, bool))))
+        if ok and plain:
+            # last write wins: an accepted plain setter reads back the value it was given (numbers compare by value:
+            # 3 == 3.0), through the same handle now and through a fresh one after reopening
+            got = getattr(e, name)
+            if got != val:
+                self.fail("the value read back is not the value written", [name, canon_value(got)],
+                          [name, canon_value(val)], "write-read")
             try:
                 eid = e.id
             except Exception:
-                return
-            got = getattr(e, name)
-            if got != val:
-                self.fail("the value read back is not the value written", got, val, "write-read")
+                return      # dimension descriptors carry no id: the walk comparison around reopen covers them
             self.written[(eid, name, p)] = val
 
     def link(self):
@@ -1178,12 +1192,128 @@ def fixed_scenarios(ctx):
             pass
     return fails, 4
 
+# ---- attribute sweep: last write wins for every plain attribute and every change of representation ------------
+
+
+def _norm(v):
+    if v is None:
+        return None
+    if isinstance(v, (str, bytes)):
+        return v
+    if isinstance(v, (list, tuple, np.ndarray)):
+        return [_norm(x) for x in v]
+    if isinstance(v, (bool, np.bool_)):
+        return bool(v)
+    if isinstance(v, (int, float, np.integer, np.floating)):
+        return float(v)
+    return repr(v)
+
+
+SWEEP_TEXT = ["a", "\u00e9\u00fc", "", None, "long " * 40, "b"]
+SWEEP_NUM = [3, 1.5, None, 0.25, 7, -2.25, 0.0, 1, 2.5]
+SWEEP_VEC = [[1.0], [0.5, 2.0, 4.0], [3], [1, 2.5], [0.25, 0.5]]
+
+
+def attribute_sweep(ctx):
+    """one entity of every kind; every plain attribute is written a sequence of values that changes the stored
+    representation (integer-valued -> fractional, short -> long -> short, ASCII -> non-ASCII -> empty -> None): each
+    accepted write must read back as the value written, through the writing handle, through a fresh handle, and
+    (the last one) after close + reopen"""
+    fails, evals = [], 0
+    path = ctx.tmpfile("c02-sweep.nix")
+    f = nixio.File.open(path, nixio.FileMode.Overwrite)
+    try:
+        b = f.create_block("b", "t")
+        da = b.create_data_array("a", "t", data=np.arange(6.0).reshape(2, 3))
+        da.append_sampled_dimension(0.5)
+        da.append_range_dimension([1.0, 2.0, 3.0])
+        b.create_group("g", "t")
+        b.create_tag("tg", "t", [1.0])
+        b.create_multi_tag("mt", "t", positions=b.create_data_array("p", "t", data=[1.0, 2.0]))
+        b.tags["tg"].create_feature(da, "tagged")
+        src = b.create_source("s", "t")
+        src.create_source("deep", "t")
+        sec = f.create_section("sec", "t")
+        sec.create_section("sub", "t")
+        sec.create_property("pf", [1.5, 2.5])
+        sec.create_property("ps", ["x"])
+        getters = {
+            "block": lambda f: f.blocks["b"], "array": lambda f: f.blocks["b"].data_arrays["a"],
+            "group": lambda f: f.blocks["b"].groups["g"], "tag": lambda f: f.blocks["b"].tags["tg"],
+            "multi_tag": lambda f: f.blocks["b"].multi_tags["mt"], "source": lambda f: f.blocks["b"].sources["s"],
+            "deep source": lambda f: f.blocks["b"].sources["s"].sources["deep"],
+            "section": lambda f: f.sections["sec"], "subsection": lambda f: f.sections["sec"].sections["sub"],
+            "float property": lambda f: f.sections["sec"].props["pf"],
+            "text property": lambda f: f.sections["sec"].props["ps"],
+            "sampled dimension": lambda f: f.blocks["b"].data_arrays["a"].dimensions[0],
+            "range dimension": lambda f: f.blocks["b"].data_arrays["a"].dimensions[1],
+        }
+        last = {}
+        for kind, get in getters.items():
+            obj = get(f)
+            for name, writable in readable_props(obj):
+                if not writable:
+                    continue
+                if name in VERBATIM or name == "label" and kind != "array":
+                    seq = SWEEP_TEXT
+                elif name == "label":
+                    seq = SWEEP_TEXT
+                elif name in NUMERIC:
+                    seq = SWEEP_NUM
+                elif name in ("position", "extent", "polynom_coefficients"):
+                    seq = SWEEP_VEC
+                elif name == "type":
+                    seq = [v for v in SWEEP_TEXT if v]
+                else:
+                    continue
+                for val in seq:
+                    evals += 1
+                    try:
+                        with contextlib.redirect_stdout(io.StringIO()):
+                            setattr(obj, name, val)
+                    except Exception:
+                        continue            # a refused value is C12's subject
+                    for how, h in (("the writing handle", obj), ("a fresh handle", get(f))):
+                        got = getattr(h, name)
+                        if _norm(got) != _norm(val):
+                            fails.append(Failure(
+                                "%s.%s = %r reads back as another value through %s" % (kind, name, val, how),
+                                {"scenario": "attribute-sweep", "kind": kind, "attribute": name,
+                                 "values written in order": [canon_value(v) for v in seq[:seq.index(val) + 1]]},
+                                canon_value(got), canon_value(val), "write-read"))
+                            break
+                    last[(kind, name)] = val
+        f.close()
+        for mode in (nixio.FileMode.ReadOnly, nixio.FileMode.ReadWrite):
+            f = nixio.File.open(path, mode)
+            for (kind, name), val in last.items():
+                evals += 1
+                got = getattr(getters[kind](f), name)
+                if _norm(got) != _norm(val):
+                    fails.append(Failure("%s.%s: after close + reopen the attribute is not the last value written"
+                                         % (kind, name), {"scenario": "attribute-sweep", "kind": kind, "attribute": name},
+                                         canon_value(got), canon_value(val), "last-write"))
+            f.close()
+    finally:
+        try:
+            f.close()
+        except Exception:
+            pass
+        try:
+            os.remove(path)
+        except OSError:
+            pass
+    return fails, evals
+
 
 def oracle(ctx, broken, hints):
     n = ctx.budget(12, 80) * (3 if broken else 1)
     steps = ctx.budget(70, 120)
     failures, evals = [], 0
     fs, e = fixed_scenarios(ctx)
+    failures += fs
+    evals += e
+    fs, e = attribute_sweep(ctx)
     failures += fs
     evals += e
     for k in range(n):
@@ -1212,6 +1342,8 @@ def replay_failure(ctx, fj):
     inp = fj.get("input") or {}
     if inp.get("scenario") == "rich" and "key" in inp:
         fs, _ = rich_scenario(ctx, inp["key"], int(inp.get("steps", 70)))
+    elif inp.get("scenario") == "attribute-sweep":
+        fs, _ = attribute_sweep(ctx)
     else:
         fs, _ = fixed_scenarios(ctx)
     for f in fs:
